@@ -46,6 +46,31 @@ def replay(p):
                 mass.append(tf.convert_to_tensor(np.array([v])))
                 m_n = v
                 sm = sm - ms[-i - 3]
+            if kind == "flat":
+                def dens(us_):
+                    mass_, jac = [], 1.0
+                    sm_ = sum(ms) - ms[-1] - ms[-2]
+                    m_n_ = ms[-1]
+                    for i in range(n - 2):
+                        b_ = M - sm_
+                        a_ = m_n_ + ms[-i - 2]
+                        v_ = (b_ - a_) * us_[i] + a_
+                        jac *= (b_ - a_)
+                        mass_.append(tf.convert_to_tensor(np.array([v_])))
+                        m_n_ = v_
+                        sm_ = sm_ - ms[-i - 3]
+                    imp_ = gen.mass_importances(mass_)
+                    imp_ = float(np.asarray(imp_.numpy())[0]) if hasattr(imp_, "numpy") else float(imp_)
+                    return imp_ / jac
+
+                f0 = dens(us)
+                worst = 0.0
+                for k in range(len(us)):
+                    for d in (0.13, -0.11):
+                        u2 = list(us)
+                        u2[k] = min(0.95, max(0.05, u2[k] + d))
+                        worst = max(worst, abs(dens(u2) - f0) / max(abs(f0), 1e-300))
+                return {"reproduced": bool(worst > 1e-9), "relative_variation_of_importance_x_proposal_density": worst}
             if kind == "momentum":
                 pl = gen.generate_momentum(mass, 1)
                 arr = [np.asarray(x.numpy())[0] for x in pl]
